@@ -136,7 +136,26 @@ pub fn gen_tval(c: &mut Choices, key: &[u8], fam: FamId) -> TVal {
             return v;
         }
     }
-    match c.below(9) {
+    match c.below(10) {
+        9 => {
+            // a user Encodable that does not emit exactly one item
+            match c.below(6) {
+                0 => TVal::Raw(vec![]),
+                1 => TVal::Raw(vec![0x01, 0x02]),
+                2 => TVal::Raw(vec![0x83, 0x01]),
+                3 => TVal::Raw(vec![0x81, 0x05]),
+                4 => {
+                    let mut v = rlp::encode_str(&gen_str_value(c));
+                    v.extend(rlp::encode_str(b"udp"));
+                    v.extend(rlp::encode_uint(1));
+                    TVal::Raw(v)
+                }
+                _ => {
+                    let n = c.below(6);
+                    TVal::Raw(c.bytes(n))
+                }
+            }
+        }
         0 => TVal::Bytes(gen_str_value(c)),
         1 => TVal::U8(c.u8()),
         2 => TVal::U16(c.u16()),
@@ -457,6 +476,7 @@ pub fn alphabet(fam: FamId) -> Vec<Op> {
         Op::Insert { key: b"id".to_vec(), val: TVal::Str("v5".into()), k: 0 },     // unsupported id
         Op::Insert { key: b"big".to_vec(), val: TVal::Bytes(vec![0x61; 200]), k: 0 }, // oversize
         Op::Insert { key: b"eth2".to_vec(), val: TVal::U64(7), k: 1 },             // other key
+        Op::Insert { key: b"x".to_vec(), val: TVal::Raw(vec![0x01, 0x02]), k: 0 }, // Encodable emitting two items
         Op::InsertRaw { key: b"raw".to_vec(), raw: vec![0xc2, 0x01, 0x02], k: 0 },
         Op::InsertRaw { key: b"raw".to_vec(), raw: vec![0x83, 0x01], k: 0 }, // malformed (truncated)
         Op::InsertRaw { key: b"raw".to_vec(), raw: vec![0x01, 0x02], k: 0 }, // trailing bytes
